@@ -133,8 +133,11 @@ func drawC13(t *rapid.T) *c13Case {
 	if gspec.U(t, 10, "norecover") == 0 {
 		c.Extra = append(c.Extra, "-no-recover")
 	}
+	if gspec.U(t, 12, "debug") == 0 && len(c.Text) < 1500 {
+		c.Extra = append(c.Extra, "-debug")
+	}
 	c.ViaStdin = gspec.U(t, 3, "stdin") == 0
-	c.ToStdout = gspec.U(t, 3, "stdout") == 0
+	c.ToStdout = gspec.U(t, 3, "stdout") == 0 && !hasArg(c.Extra, "-debug")
 	return c
 }
 
